@@ -1,5 +1,6 @@
 import Proofs.DasStatement
 import Proofs.DasForeign
+import Proofs.DasFlat
 /-!
   C08 — attributes survive the DAS.  Model: `PydapModel/DasText.lean` (follows parsers/das.py and
   responses/das.py *after* the two fixes: `float()` under Float32/Float64; size-0 values skipped everywhere).
@@ -15,9 +16,11 @@ import Proofs.DasForeign
       statements, `C08_foreign` (foreign-layout text with nested containers, parsed and attached);
     * value / attribute-line level and the single decisions of `add_attributes`
       (`C08_value_roundtrip`, `C08_roundtrip_line_*`, `C08_foreign_line`, `C08_placement_flat/_nested/_keep/_none/_global`).
-  Example level only (kernel-evaluated `rfl` examples below + the differential run): placement of *flat-id*
-  containers (`s.a { … }`) over a whole tree (single step: `C08_placement_flat`), the keep-around rule over a whole
-  tree, error outcomes.
+    * flat style over a whole tree: `C08_foreign_flat` (parsed dict with containers keyed by dotted ids) and
+      `C08_foreign_flat_text` (from the foreign-layout text).  Its guard "ids pairwise distinct" is a hypothesis; that it
+      follows from distinct, dot-free sibling names is not proved here.
+  Example level only (kernel-evaluated `rfl` examples below + the differential run): texts mixing flat and nested
+  containers for the same subtree, the keep-around rule over a whole tree, white space before `,`/`;`, error outcomes.
 -/
 namespace Pydap.C08
 open Pydap.Das
@@ -170,6 +173,29 @@ theorem C08_foreign (ds : Dataset) (kw w0 w1 : Text) (its : List FItem) (trail :
   rw [fparse kw w0 w1 its trail hkw h0 h1 hok, hsame]
   simp [Except.toOption, attach_tree ds hg, expected]
 
+/-- **flat style, whole tree**: on a parsed DAS whose containers are keyed by dotted variable ids (`s`, `s.a`,
+    `s.t.b` … for any subset of the variables, grid members included) next to arbitrary other entries, every variable
+    receives exactly the content of the container that spells its id (nothing when there is none), and every other
+    entry becomes a global attribute on top of the merged dict-valued NC_GLOBAL/DODS_EXTRA.  Guards (`FlatGuard`): ids
+    pairwise distinct; an entry under a variable's id is a container with distinct names; the container of a top-level
+    variable holds no entry named like a child of that variable (so purely flat: mixed flat+nested texts are not
+    covered by this theorem); nothing left over carries the dataset's own name. -/
+theorem C08_foreign_flat (name : Text) (cs : List Var) (A : Dict)
+    (hG : FlatGuard (A.filter notGlobal) (visitIds cs))
+    (hself : name ∉ keys (dropKeys (A.filter notGlobal) ((visitIds cs).map dotted))) :
+    addAttributes name cs A = .ok (flatExpected cs A) :=
+  flat_attach name cs A hG hself
+
+/-- **flat style, from the text**: a foreign-layout text of flat containers, parsed and attached. -/
+theorem C08_foreign_flat_text (name : Text) (cs : List Var) (kw w0 w1 : Text) (its : List FItem) (trail : Text)
+    (hkw : lower kw = "attributes".toList) (h0 : Ws w0) (h1 : Ws w1) (hok : FItemsOk its)
+    (hG : FlatGuard ((denoteItems [] (eraseItems its)).filter notGlobal) (visitIds cs))
+    (hself : name ∉ keys (dropKeys ((denoteItems [] (eraseItems its)).filter notGlobal) ((visitIds cs).map dotted))) :
+    (dasParse (ftext kw w0 w1 its trail)).toOption.map (addAttributes name cs)
+      = some (.ok (flatExpected cs (denoteItems [] (eraseItems its)))) := by
+  rw [fparse kw w0 w1 its trail hkw h0 h1 hok]
+  simp [Except.toOption, flat_attach name cs _ hG hself]
+
 /-- **unguarded statement refuted (1)**: over the DAS-safe domain alone the round trip is false — a
     one-element list comes back as a scalar (finding C08.short_list). -/
 theorem C08_roundtrip_refuted : ¬ (∀ ds : Dataset, DsOk ds → roundTrip ds = some (.ok (expected ds))) := by
@@ -220,6 +246,30 @@ example : denoteItems [] (eraseItems exF)
         [("x".toList, .list [.num "1.0".toList true, .num "2.5".toList true]), ("u".toList, .sc (.str "v".toList))] []]⟩ := by
   rfl
 example : ftext "ATTRIBUTES".toList [] [] exF [] = "ATTRIBUTES{a {URL u \"v\";float32\tx\n1.0,2.5;}}".toList := by rfl
+
+-- flat style: the tree `s {a}, b` and the parsed dict `{"s.a": {x: 1.0}, "HDF_GLOBAL": {k: "v"}}` satisfy the guards;
+-- `s.a` receives `{x: 1.0}`, `s` and `b` nothing, `HDF_GLOBAL` becomes global
+example : FlatGuard (exFlatA.filter notGlobal) (visitIds exTmpl) := by
+  refine ⟨by decide, ?_, ?_⟩
+  · intro p hp
+    have hp' : p ∈ [["b".toList], ["s".toList, "a".toList], ["s".toList]] := hp
+    simp only [List.mem_cons, List.not_mem_nil, or_false] at hp'
+    rcases hp' with rfl | rfl | rfl
+    · exact Or.inl rfl
+    · exact Or.inr ⟨_, rfl, by decide⟩
+    · exact Or.inl rfl
+  · intro q0 r1 rs hp
+    have hp' : (q0 :: r1 :: rs) ∈ [["b".toList], ["s".toList, "a".toList], ["s".toList]] := hp
+    simp only [List.mem_cons, List.not_mem_nil, or_false] at hp'
+    rcases hp' with h | h | h
+    · simp at h
+    · simp at h; obtain ⟨rfl, _, _⟩ := h; exact Or.inl rfl
+    · simp at h
+example : "d".toList ∉ keys (dropKeys (exFlatA.filter notGlobal) ((visitIds exTmpl).map dotted)) := by decide
+example : flatExpected exTmpl exFlatA =
+    ⟨[("HDF_GLOBAL".toList, .dict [("k".toList, .sc (.str "v".toList))])],
+     [(["b".toList], []), (["s".toList, "a".toList], [("x".toList, .sc (.num "1.0".toList true))]), (["s".toList], [])]⟩ := by
+  rfl
 
 /-! ### non-vacuity: the hypotheses have inhabitants, the guards are the exact ones -/
 
